@@ -732,7 +732,10 @@ func indexFacts(w *world, live map[string][]int) string {
 			out = append(out, fmt.Sprintf("stored_mismatch=%s got=%v want=%v", id, stored.Vector, live[id]))
 		}
 	}
-	return strings.Join(out, "; ")
+	if len(out) == 0 {
+		return ""
+	}
+	return "index_prec=" + w.prec + "; " + strings.Join(out, "; ")
 }
 
 func (rp *replayer) anyOutOfRange(w *world, st stepRec, q []float32, adm []string) bool {
@@ -770,10 +773,7 @@ func contentsMismatch(w *world, live map[string][]int) string {
 			out = append(out, fmt.Sprintf("%s: not live in the specification, VGet = %v", id, stored.Vector))
 		}
 	}
-	if len(out) == 0 {
-		return ""
-	}
-	return "index_prec=" + w.prec + "; " + strings.Join(out, "; ")
+	return strings.Join(out, "; ")
 }
 
 func linked(n *hnsw.Node, to uint32) bool {
